@@ -70,6 +70,46 @@ def laws(ld):
             need(d.indexable and 1 <= k <= n_of(d))
             return ld.concatenate(*d.split(k))
         L[f'concat-split{k}=id'] = (lhs, lambda d: (need(d.indexable), d)[1])
+    # a list of datasets handed to a combining function belongs to the caller:
+    # what the caller does to that list afterwards (reorder, pop, replace
+    # entries - a cross-validation loop) does not reach the combination
+    def meddle(parts):
+        parts.reverse()
+        parts.pop()
+        parts[:] = [p.map(G) for p in parts]
+    for k in (2, 3):
+        for form in ('function', 'method'):
+            def lhs(d, k=k, form=form):
+                need(d.indexable and k <= n_of(d))
+                parts = d.split(k)
+                if form == 'function':
+                    whole = ld.concatenate(parts)
+                else:
+                    rest = parts[1:]
+                    whole = parts[0].concatenate(rest)
+                    meddle(rest)
+                meddle(parts)
+                return whole
+            L[f'concat-of-callers-list-{form}{k}=id'] = (
+                lhs, lambda d, k=k: (need(d.indexable and k <= n_of(d)), d)[1])
+
+    def zl(d):
+        need(d.indexable and n_of(d) >= 1)
+        parts = [d, d.map(F)]
+        whole = ld.zip(parts)
+        meddle(parts)
+        return whole
+    L['zip-of-callers-list'] = (zl, lambda d: (need(d.indexable and n_of(d) >= 1),
+                                                 d.zip(d.map(F)))[1])
+
+    def il(d):
+        need(d.indexable and n_of(d) >= 1)
+        parts = [d, d.map(F)]
+        whole = ld.intersperse(parts)
+        meddle(parts)
+        return whole
+    L['intersperse-of-callers-list'] = (il, lambda d: (need(d.indexable and n_of(d) >= 1),
+                                                        d.intersperse(d.map(F)))[1])
     for i, (s1, s2) in enumerate(itertools.product(SL, SL)):
         def lhs(d, s1=s1, s2=s2):
             need(d.indexable)
